@@ -113,7 +113,9 @@ Fixpoint protect2_aux (skip : nat) (s : string) : string :=
   end.
 
 (** [fx7]: the repair of C03-F7 / C08-F2 (commit a779db8): both spellings of an encoded slash are
-    recognised.  [false] is the pinned tree: only "%2F". *)
+    recognised.  [false] is the pinned tree: only "%2F".
+    [fx6] (below, [param_match]): the repair of C03-F6 / C08-F3 (commit 72ba5d4): under `off`
+    path_params see the decoded value. *)
 Definition protect (fx7 : bool) (v : string) : string :=
   if fx7 then protect2_aux O v else replace_all v "%2F" marker.
 
@@ -253,7 +255,7 @@ Definition hosts_match (eng : engine) (hs : list tmdef) (q : request) : bool :=
   forallb (fun h => tm_match eng true h (q_host q)) hs.
 
 (** pathParamMatcher.Matches *)
-Definition param_match (fx7 : bool) (eng : engine) (sl : slash) (q : request) (keys vals : list string) (p : param) : mres :=
+Definition param_match (fx6 fx7 : bool) (eng : engine) (sl : slash) (q : request) (keys vals : list string) (p : param) : mres :=
   match index_of (pp_name p) keys with
   | None => MNo
   | Some i =>
@@ -262,28 +264,29 @@ Definition param_match (fx7 : bool) (eng : engine) (sl : slash) (q : request) (k
     | Some v =>
       if String.eqb (q_rawpath q) "" then of_bool (tm_match eng false (pp_tm p) v) else
       match sl with
-      | SOff => if contains_enc_slash fx7 (q_rawpath q) then MNo else of_bool (tm_match eng false (pp_tm p) v)
+      | SOff => if contains_enc_slash fx7 (q_rawpath q) then MNo
+                else of_bool (tm_match eng false (pp_tm p) (if fx6 then path_unescape v else v))
       | SOn => of_bool (tm_match eng false (pp_tm p) (path_unescape v))
       | SNoDecode => of_bool (tm_match eng false (pp_tm p) (nd_unescape fx7 v))
       end
     end
   end.
 
-Fixpoint params_match (fx7 : bool) (eng : engine) (sl : slash) (q : request) (keys vals : list string) (ps : list param) : mres :=
+Fixpoint params_match (fx6 fx7 : bool) (eng : engine) (sl : slash) (q : request) (keys vals : list string) (ps : list param) : mres :=
   match ps with
   | [] => MYes
-  | p :: r => match param_match fx7 eng sl q keys vals p with
-              | MYes => params_match fx7 eng sl q keys vals r
+  | p :: r => match param_match fx6 fx7 eng sl q keys vals p with
+              | MYes => params_match fx6 fx7 eng sl q keys vals r
               | x => x
               end
   end.
 
 (** compositeMatcher{sm, mm, hm, ppm}.Matches — in this order, first failure wins *)
-Definition route_matches (fx7 : bool) (eng : engine) (m : cmatcher) (q : request) (keys vals : list string) : mres :=
+Definition route_matches (fx6 fx7 : bool) (eng : engine) (m : cmatcher) (q : request) (keys vals : list string) : mres :=
   if negb (scheme_match (cm_scheme m) q) then MNo else
   if negb (method_match (cm_methods m) q) then MNo else
   if negb (hosts_match eng (cm_hosts m) q) then MNo else
-  params_match fx7 eng (cm_slash m) q keys vals (cm_params m).
+  params_match fx6 fx7 eng (cm_slash m) q keys vals (cm_params m).
 
 (* ------------------------------------------------------------------ radix tree: Add *)
 
@@ -608,10 +611,10 @@ Definition load (ds : list ruledef) : loaded :=
 Definition lookup_path (q : request) : string :=
   if String.eqb (q_rawpath q) "" then q_path q else q_rawpath q.
 
-Definition matcher_of (fx7 : bool) (eng : engine) (es : list centry) (q : request) : nat -> list string -> list string -> mres :=
+Definition matcher_of (fx6 fx7 : bool) (eng : engine) (es : list centry) (q : request) : nat -> list string -> list string -> mres :=
   fun vid keys vals =>
     match nth_error es vid with
-    | Some e => route_matches fx7 eng (ce_m e) q keys vals
+    | Some e => route_matches fx6 fx7 eng (ce_m e) q keys vals
     | None => MNo
     end.
 
@@ -643,8 +646,8 @@ Definition execute (fx7 : bool) (sl : slash) (q : request) (caps : list (string 
   | _ => (map (fun kv => (fst kv, unescape fx7 (snd kv) sl)) caps, false)
   end.
 
-Definition serve (fx2 fx5 fx7 : bool) (eng : engine) (es : list centry) (t : tree) (q : request) : outcome * list call :=
-  match tree_find fx2 fx5 (matcher_of fx7 eng es q) t (lookup_path q) with
+Definition serve (fx2 fx5 fx6 fx7 : bool) (eng : engine) (es : list centry) (t : tree) (q : request) : outcome * list call :=
+  match tree_find fx2 fx5 (matcher_of fx6 fx7 eng es q) t (lookup_path q) with
   | (LPanic, cs) => (OPanic, cs)
   | (LNone, cs) => (ONone, cs)
   | (LFound vid params, cs) =>
